@@ -111,6 +111,24 @@ pub fn run_plan<T: HCfg>(plan: &Value, detail: u8, emit: &mut dyn FnMut(&Value))
                 .collect()
         })
         .unwrap_or_default();
+    // C05 fault plans (spec/FaultPlan.tla): [{link, phase, idx, kind, d}], links: [[from,to],..]
+    let fp_links: Vec<(Addr, Addr)> = plan
+        .get("links")
+        .and_then(|v| v.as_array())
+        .map(|a| {
+            a.iter()
+                .map(|l| (l[0].as_u64().unwrap_or(0) as Addr, l[1].as_u64().unwrap_or(0) as Addr))
+                .collect()
+        })
+        .unwrap_or_default();
+    let fault_plan: Vec<Value> = plan
+        .get("fault_plan")
+        .and_then(|v| v.as_array())
+        .cloned()
+        .unwrap_or_default();
+    let mut cnt_all: std::collections::HashMap<(Addr, Addr), u64> = Default::default();
+    let mut cnt_run: std::collections::HashMap<(Addr, Addr), u64> = Default::default();
+    let mut faults_hit = 0u64;
     let mut kills_done = vec![false; kills.len()];
     let mut discs_done = vec![false; discs.len()];
 
@@ -264,7 +282,66 @@ pub fn run_plan<T: HCfg>(plan: &Value, detail: u8, emit: &mut dyn FnMut(&Value))
                 // fate of the packets this step sent
                 let sent: Vec<(u64, Addr, Addr, bool)> =
                     std::mem::take(&mut w.net.borrow_mut().tx_ids);
-                for (id, from, to, _is_input) in sent {
+                for (id, from, to, is_input) in sent {
+                    // planned faults
+                    let ia = {
+                        let c = cnt_all.entry((from, to)).or_insert(0);
+                        *c += 1;
+                        *c
+                    };
+                    let ir = if is_input {
+                        let c = cnt_run.entry((from, to)).or_insert(0);
+                        *c += 1;
+                        *c
+                    } else {
+                        0
+                    };
+                    let mut planned: Option<(String, u64)> = None;
+                    for f in &fault_plan {
+                        let li = f["link"].as_u64().unwrap_or(0) as usize;
+                        if li >= fp_links.len() || fp_links[li] != (from, to) {
+                            continue;
+                        }
+                        let idx = f["idx"].as_u64().unwrap_or(0);
+                        let hit = match f["phase"].as_str().unwrap_or("") {
+                            "sync" => idx == ia,
+                            "run" => is_input && idx == ir,
+                            _ => false,
+                        };
+                        if hit {
+                            planned = Some((
+                                f["kind"].as_str().unwrap_or("").to_string(),
+                                f["d"].as_u64().unwrap_or(0),
+                            ));
+                        }
+                    }
+                    if let Some((kind, d)) = planned {
+                        faults_hit += 1;
+                        match kind.as_str() {
+                            "drop" => {
+                                emit(&w.step(&json!({"a":"drop","from":from,"to":to,"id":id})));
+                                continue;
+                            }
+                            "dup" => {
+                                let lat = rng.gen_range(lat_lo..=lat_hi);
+                                hseq += 1;
+                                heap.push(Reverse((now + lat, hseq, from, to, id)));
+                                let l = w.step(&json!({"a":"dup","from":from,"to":to,"id":id}));
+                                if let Some(nid) = l["id"].as_u64() {
+                                    hseq += 1;
+                                    heap.push(Reverse((now + lat + 1, hseq, from, to, nid)));
+                                }
+                                emit(&l);
+                                continue;
+                            }
+                            _ => {
+                                let lat = rng.gen_range(lat_lo..=lat_hi) + d;
+                                hseq += 1;
+                                heap.push(Reverse((now + lat, hseq, from, to, id)));
+                                continue;
+                            }
+                        }
+                    }
                     let in_outage = faults_on
                         && outages
                             .iter()
@@ -294,7 +371,7 @@ pub fn run_plan<T: HCfg>(plan: &Value, detail: u8, emit: &mut dyn FnMut(&Value))
             }
         }
     }
-    emit(&json!({"a":"end","t":w.now()}));
+    emit(&json!({"a":"end","t":w.now(),"faults_hit":faults_hit}));
     Ok(())
 }
 
